@@ -155,6 +155,8 @@ def mutants(a):
             env = dict(os.environ)
             env["POTSIM_REPO"] = dst
             env["PYTHONHASHSEED"] = "0"
+            env.setdefault("POTSIM_MINIMISE_CLASSES", "1")
+            env.setdefault("POTSIM_MINIMISE_BUDGET", "30")
             cmd = [sys.executable, "-W", "ignore", "-c", "import sys; from potsim.check import main; sys.exit(main(sys.argv[1:]))",
                    prop, "--tier", tier, "--no-evidence"]
             t0 = time.time()
